@@ -233,7 +233,7 @@ class Fixture:
         items = {"ego.server.oauth.as.enabled": "true", "ego.server.oauth.as.issuer": self.issuer,
                  "ego.server.oauth.as.key.file": os.path.join(self.oauth, "signing.pem"),
                  "ego.server.oauth.as.clients": os.path.join(self.oauth, "clients.json"),
-                 "ego.server.allow.passkeys": "true", "ego.server.webauthn.rpid": "localhost"}
+                 "ego.server.allow.passkeys": "true", "ego.server.webauthn.rpid": "localhost", "ego.compiler.import": "true"}
         pd = os.path.join(self.srv.home, ".ego")
         os.makedirs(pd, exist_ok=True)
         os.chmod(pd, 0o700)
@@ -273,7 +273,7 @@ class Fixture:
     def stop(self):
         self.srv.stop()
 
-    def call(self, method, path, body=None, user="admin", basic=None, headers=None):
+    def call(self, method, path, body=None, user="admin", basic=None, headers=None, form=None):
         """a well-formed set-up request, sent and observed like every other request (its record is judged too)"""
         h = [("Accept", "application/json")]
         if basic:
@@ -284,6 +284,9 @@ class Fixture:
         if body is not None:
             b = json.dumps(body).encode()
             h.append(("Content-Type", "application/json"))
+        elif form is not None:
+            b = urllib.parse.urlencode(form).encode()
+            h.append(("Content-Type", "application/x-www-form-urlencoded"))
         for kv in headers or []:
             h.append(kv)
         obs, info = self.ob.request(method, path, h, b)
@@ -387,7 +390,8 @@ class Route:
 CODE = 'import "fmt"\nfunc main() {\n fmt.Println("hello")\n}\n'
 USERBODY = {"name": "unew", "password": "pw-unew-1", "permissions": ["ego.logon"]}
 COLS = [{"name": "id", "type": "int"}, {"name": "name", "type": "string"}]
-PKCE = "E9Melhoa2OwvFrEMTJguCHaoeK1t8URWbuGJSstw-cM"
+PKCE = "E9Melhoa2OwvFrEMTJguCHaoeK1t8URWbuGJSstw-cM"          # RFC 7636 appendix B
+PKCE_VERIFIER = "dBjftJeZ4CVP-mB92K27uhbUJU1p1r_wW1gFWFOEjXk"
 
 
 def base_requests(fx):
@@ -400,23 +404,22 @@ def base_requests(fx):
         "POST /admin/run": {"body": {"code": CODE}},
         "POST /admin/caches": {"body": {"serviceSize": 10}},
         "DELETE /admin/caches": {"query": {"class": "service"}},
-        "PATCH /admin/config": {"body": {"ego.console.auto.help": True, "ego.server.start.log.age": 5, "ego.console.history": ".ego_history"}},
+        "PATCH /admin/config": {"body": {"ego.console.auto.help": True, "ego.server.start.log.age": 5, "ego.console.output": "text"}},
         "POST /admin/config": {"body": ["ego.server.max.item.limit", "ego.compiler.extensions"]},
         "POST /admin/loggers/": {"body": {"loggers": {"TABLES": True, "AUTH": False}, "keep": 3}},
         "PUT /admin/tokens/": {"body": [str(uuid.UUID(int=9)), str(uuid.UUID(int=10))]},
         "DELETE /admin/tokens/{{id}}": {"vars": {"id": str(uuid.UUID(int=7))}},
         "POST /admin/users/": {"body": USERBODY, "pre": [("DELETE", "/admin/users/unew", None)]},
-        "DELETE /admin/users/{{name}}": {"pre": [("POST", "/admin/users/", {"name": "victim", "password": VICTIM_PW, "permissions": ["ego.logon"]})]},
+        "DELETE /admin/users/{{name}}": {"vars": {"name": "udel"}, "pre": [("POST", "/admin/users/", {"name": "udel", "password": "pw-udel-1", "permissions": ["ego.logon"]})]},
         "PATCH /admin/users/{{name}}": {"body": {"name": "victim", "password": VICTIM_PW, "permissions": ["ego.logon", "ego.table.read"]}},
         "GET /assets/{{item...}}": {"vars": {"item...": "test.asset.css"}},
         "HEAD /assets/{{item...}}": {"vars": {"item...": "test.asset.css"}},
         "POST /dsns/": {"body": {"name": "dnew", "provider": "sqlite", "database": fx.sqlite("dnew"), "restricted": False,
                                  "user": "u", "password": "p"}, "pre": [("DELETE", "/dsns/dnew/", None)]},
-        "POST /dsns/@permissions": {"body": {"dsn": "d1", "user": "bob", "actions": ["+read"]}},
-        "POST /dsns/@permissions #items": {"body": {"items": [{"dsn": "d1", "user": "bob", "actions": ["+read", "-write"]}]}},
-        "DELETE /dsns/{{dsn}}/": {"vars": {"dsn": "dvictim"},
-                                  "pre": [("POST", "/dsns/", {"name": "dvictim", "provider": "sqlite", "database": fx.sqlite("dvictim"), "restricted": False})]},
-        "PATCH /dsns/{{dsn}}/": {"vars": {"dsn": "dvictim"}, "body": {"password": "npw", "secured": False, "restricted": False}},
+        "POST /dsns/@permissions": {"body": {"dsn": "d1", "user": "bob", "actions": ["+ego.dsn.read", "-ego.dsn.write"]}},
+        "DELETE /dsns/{{dsn}}/": {"vars": {"dsn": "ddel"},
+                                  "pre": [("POST", "/dsns/", {"name": "ddel", "provider": "sqlite", "database": fx.sqlite("ddel"), "restricted": False})]},
+        "PATCH /dsns/{{dsn}}/": {"vars": {"dsn": "dvictim"}, "body": {"restricted": False, "secured": False}},
         "POST /dsns/{{dsn}}/tables/@generate": {"body": "list all rows of t1"},
         "POST /dsns/{{dsn}}/tables/@generate #list": {"body": ["list all rows", "of t1"]},
         "POST /dsns/{{dsn}}/tables/@sql": {"body": ["update trows set name = 'sql' where id = 2", "select * from t1 where id = 1"]},
@@ -434,8 +437,11 @@ def base_requests(fx):
                                                "body": [{"name": "id", "type": "int", "unique": {"specified": True, "value": True}},
                                                         {"name": "name", "type": "string", "size": 20, "nullable": {"specified": True, "value": True}}]},
         "DELETE /dsns/{{dsn}}/tables/{{table}}": {"vars": {"table": "tvictim"}, "pre": [("PUT", "/dsns/d1/tables/tvictim", COLS)]},
-        "PUT /dsns/{{dsn}}/tables/{{table}}/permissions": {"body": ["read", "update"]},
-        "DELETE /dsns/{{dsn}}/tables/{{table}}/rows": {"vars": {"table": "trows"}},
+        "PUT /dsns/{{dsn}}/tables/{{table}}/permissions": {"body": ["ego.table.read", "+ego.table.update", "-ego.table.delete"]},
+        "DELETE /dsns/{{dsn}}/tables/{{table}}/rows": {"vars": {"table": "trows"}, "query": {"filter": "EQ(id,50)"},
+                                                       "pre": [("PUT", "/dsns/d1/tables/trows/rows", [{"id": 50, "name": "del"}])]},
+        "GET /dsns/{{dsn}}/commit": {"prep": "tx", "query": {"transaction": "@txid"}},
+        "GET /dsns/{{dsn}}/rollback": {"prep": "tx", "query": {"transaction": "@txid"}},
         "GET /dsns/{{dsn}}/tables/{{table}}/rows #abstract": {"query": {"abstract": "true", "filter": "EQ(id,1)"}},
         "PATCH /dsns/{{dsn}}/tables/{{table}}/rows": {"vars": {"table": "trows"}, "body": {"name": "renamed"}, "query": {"filter": "EQ(id,2)"}},
         "PATCH /dsns/{{dsn}}/tables/{{table}}/rows #rowset": {"vars": {"table": "trows"}, "body": {"rows": [{"name": "renamed2", "id": 3}], "count": 1},
@@ -449,21 +455,22 @@ def base_requests(fx):
                                                               "body": {"columns": [{"name": "id", "type": "int"}, {"name": "name", "type": "string"}],
                                                                        "rows": [[11, "eleven"], [12, "twelve"]], "count": 2}},
         "GET /oauth2/authorize": {"query": authq, "accept": "text/html"},
-        "POST /oauth2/authorize": {"body": ("form", dict(authq, username="admin", password=ADMIN_PW))},
+        "POST /oauth2/authorize": {"body": ("form", dict(authq, username="admin", password=ADMIN_PW, csrf_token="c40csrf")),
+                                   "headers": [("Cookie", "ego_oauth_csrf=c40csrf")]},
         "POST /oauth2/token": {"body": ("form", {"grant_type": "client_credentials", "client_id": "c40app", "client_secret": "c40-client-secret", "scope": "openid"})},
-        "POST /oauth2/token #code": {"body": ("form", {"grant_type": "authorization_code", "client_id": "c40app", "client_secret": "c40-client-secret",
-                                                       "code": "nocode", "redirect_uri": iss + "/cb", "code_verifier": "v" * 43})},
-        "POST /oauth2/token #refresh": {"body": ("form", {"grant_type": "refresh_token", "client_id": "c40app", "client_secret": "c40-client-secret",
-                                                          "refresh_token": "none"})},
+        "POST /oauth2/token #code": {"prep": "code", "body": ("form", {"grant_type": "authorization_code", "client_id": "c40app", "client_secret": "c40-client-secret",
+                                                                       "code": "@code", "redirect_uri": iss + "/cb", "code_verifier": PKCE_VERIFIER})},
+        "POST /oauth2/token #refresh": {"prep": "refresh", "body": ("form", {"grant_type": "refresh_token", "client_id": "c40app", "client_secret": "c40-client-secret",
+                                                                             "refresh_token": "@refresh"})},
         "POST /oauth2/revoke": {"body": ("form", {"token": "abc.def.ghi", "client_id": "c40app", "client_secret": "c40-client-secret"})},
-        "GET /oauth2/userinfo": {},
+        "GET /oauth2/userinfo": {"prep": "jwt"},
         "POST /services/admin/logon": {"body": {"username": "bob", "password": BOB_PW}},
         "DELETE /services/admin/webauthn/passkeys/{{name}}": {"vars": {"name": "victim"}},
         "POST /services/admin/webauthn/login/begin": {"body": None},
-        "POST /services/admin/webauthn/login/finish": {"body": {"id": "AAAA", "rawId": "AAAA", "type": "public-key",
+        "POST /services/admin/webauthn/login/finish": {"prep": "wa-login", "body": {"id": "AAAA", "rawId": "AAAA", "type": "public-key",
                                                                 "response": {"authenticatorData": "AAAA", "clientDataJSON": "e30", "signature": "AAAA", "userHandle": "Ym9i"}}},
         "POST /services/admin/webauthn/register/begin": {"body": None},
-        "POST /services/admin/webauthn/register/finish": {"body": {"id": "AAAA", "rawId": "AAAA", "type": "public-key",
+        "POST /services/admin/webauthn/register/finish": {"prep": "wa-register", "body": {"id": "AAAA", "rawId": "AAAA", "type": "public-key",
                                                                    "response": {"attestationObject": "AAAA", "clientDataJSON": "e30"}}},
         "POST /services/cluster/flush": {"body": {"cache_id": 2, "sender_id": "x", "hops": 1}},
         "POST /services/cluster/remove": {"body": None},
@@ -479,6 +486,60 @@ def base_requests(fx):
     }
     return B
 
+
+def _cookie(r, name):
+    for k, v in (r.headers or {}).items():
+        if k.lower() == "set-cookie" and name + "=" in v:
+            return name + "=" + v.split(name + "=", 1)[1].split(";", 1)[0]
+    return name + "=none"
+
+
+def prep_tx(fx):
+    r = fx.call("GET", "/dsns/d1/begin?expires=5s")
+    return {"subst": {"@txid": ((r.json() or {}).get("id") or "none") if r is not None else "none"}}
+
+
+def prep_code(fx):
+    """an authorization code of the fixture's OAuth2 client for the administrator (the real authorization-code flow)"""
+    f = {"response_type": "code", "client_id": "c40app", "redirect_uri": fx.issuer + "/cb", "scope": "openid profile", "state": "st1",
+         "code_challenge": PKCE, "code_challenge_method": "S256", "username": "admin", "password": ADMIN_PW, "csrf_token": "c40csrf"}
+    r = fx.call("POST", "/oauth2/authorize", form=f, user=None, headers=[("Cookie", "ego_oauth_csrf=c40csrf")])
+    loc = ""
+    for k, v in ((r.headers or {}).items() if r is not None else []):
+        if k.lower() == "location":
+            loc = v
+    q = urllib.parse.parse_qs(urllib.parse.urlparse(loc).query)
+    return {"subst": {"@code": (q.get("code") or ["none"])[0]}}
+
+
+def _exchange(fx):
+    code = prep_code(fx)["subst"]["@code"]
+    r = fx.call("POST", "/oauth2/token", user=None, form={"grant_type": "authorization_code", "client_id": "c40app", "client_secret": "c40-client-secret",
+                                                          "code": code, "redirect_uri": fx.issuer + "/cb", "code_verifier": PKCE_VERIFIER})
+    return (r.json() or {}) if r is not None else {}
+
+
+def prep_jwt(fx):
+    if not getattr(fx, "jwt", None):
+        fx.jwt = _exchange(fx).get("access_token") or "none"
+    return {"bearer": fx.jwt}
+
+
+def prep_refresh(fx):
+    return {"subst": {"@refresh": _exchange(fx).get("refresh_token") or "none"}}
+
+
+def prep_wa_login(fx):
+    r = fx.call("POST", "/services/admin/webauthn/login/begin", user=None)
+    return {"headers": [("Cookie", _cookie(r, "webauthn_challenge") if r is not None else "webauthn_challenge=none")]}
+
+
+def prep_wa_register(fx):
+    r = fx.call("POST", "/services/admin/webauthn/register/begin")
+    return {"headers": [("Cookie", _cookie(r, "webauthn_challenge") if r is not None else "webauthn_challenge=none")]}
+
+
+PREPS = {"tx": prep_tx, "jwt": prep_jwt, "code": prep_code, "refresh": prep_refresh, "wa-login": prep_wa_login, "wa-register": prep_wa_register}
 
 DEFAULT_VARS = {"name": "victim", "dsn": "d1", "table": "t1", "id": str(uuid.UUID(int=7)), "item...": "test.asset.css",
                 "value": "12", "field": "age", "code": "200"}
@@ -617,11 +678,13 @@ def query_value(name, kind, which):
     return lst[n]
 
 
-def instantiate(rt, c, fx, spec, table_methods):
+def instantiate(rt, c, fx, spec, table_methods, dyn=None):
     """the concrete request of abstract case c for route rt: (method, target, headers, body) or None when the route has no
     such item (no i-th variable / parameter / body node) or the value coincides with another one for this route.
     Pure table look-up: nothing here knows what the server should answer."""
     spec = spec or {}
+    dyn = dyn or {}
+    subst = dyn.get("subst") or {}
     # ---- method
     m = c["method"]
     route_m = rt.method if rt.method not in ("ANY", "*", "") else "GET"
@@ -672,7 +735,7 @@ def instantiate(rt, c, fx, spec, table_methods):
     # ---- query
     qv = c["query"]
     baseq = spec.get("query") or {}
-    q = [(k, urllib.parse.quote(v, safe="")) for k, v in baseq.items()]          # a route whose well-formed request needs a query
+    q = [(k, urllib.parse.quote(subst.get(v, v), safe="")) for k, v in baseq.items()]          # a route whose well-formed request needs a query
     names = [n for n, _k in rt.params]
     kinds = dict(rt.params)
     if qv == "absent":
@@ -717,6 +780,7 @@ def instantiate(rt, c, fx, spec, table_methods):
     isform = isinstance(base, tuple)
     basebytes = None
     if isform:
+        base = ("form", {k: subst.get(v, v) for k, v in base[1].items()})
         basebytes = urllib.parse.urlencode(base[1]).encode()
     elif base is not None:
         basebytes = json.dumps(base).encode()
@@ -763,7 +827,7 @@ def instantiate(rt, c, fx, spec, table_methods):
     bearer = lambda t: ("Authorization", "Bearer " + t)
     basic = lambda u, p: ("Authorization", "Basic " + b64(u + ":" + p))
     if au == "admin":
-        H.append(bearer(tok["admin"]))
+        H.append(bearer(dyn.get("bearer") or tok["admin"]))
     elif au == "adminbasic":
         H.append(basic("admin", ADMIN_PW))
     elif au == "power":
@@ -812,6 +876,7 @@ def instantiate(rt, c, fx, spec, table_methods):
         H.append(("Accept-Language", LANG[c["lang"]]))
     if c["enc"] != "absent":
         H.append(("Accept-Encoding", ENC[c["enc"]]))
+    H += list(spec.get("headers") or []) + list(dyn.get("headers") or [])
     return method, target, H, body
 
 
@@ -872,14 +937,15 @@ class Runner:
     def one(self, rt, c, stage="main"):
         fx = self.fx
         spec = self.spec_of(rt)
-        inst = instantiate(rt, c, fx, spec, self.tm)
-        if inst is None:
+        st = instantiate(rt, c, fx, spec, self.tm)
+        if st is None:
             return None
-        method, target, H, body = inst
-        sig = hashlib.sha1(repr((method, target, H, body if body is None or len(body) < 4096 else hashlib.sha1(body).hexdigest())).encode("utf8", "replace")).hexdigest()
+        sig = hashlib.sha1(repr((st[0], st[1], st[2], st[3] if st[3] is None or len(st[3]) < 4096 else hashlib.sha1(st[3]).hexdigest())).encode("utf8", "replace")).hexdigest()
         if sig in self.seen[rt.key]:
             return None
         self.seen[rt.key].add(sig)
+        dyn = PREPS[spec["prep"]](fx) if spec and spec.get("prep") else None
+        method, target, H, body = instantiate(rt, c, fx, spec, self.tm, dyn)
         for pm, pp, pb in (spec or {}).get("pre", []):
             fx.call(pm, pp, pb)
         obs, info = fx.ob.request(method, target, H, body)
@@ -929,13 +995,13 @@ class Runner:
         for pr in (0, 1, 2, 3):
             pos = {rt.key: 0 for rt in self.routes}
             active = list(self.routes)
-            while active and time.time() < self.deadline:
+            while active and (pr == 0 or time.time() < self.deadline):      # the well-formed requests are never cut
                 self.fx.ensure()
                 nxt = []
                 for rt in active:
                     lst = self.plan[rt.key][pr]
                     sent = 0
-                    while pos[rt.key] < len(lst) and sent < chunk[pr] and time.time() < self.deadline:
+                    while pos[rt.key] < len(lst) and sent < chunk[pr] and (pr == 0 or time.time() < self.deadline):
                         c = lst[pos[rt.key]]
                         pos[rt.key] += 1
                         if self.only is not None and c != self.only:
